@@ -4,7 +4,9 @@
 (* discovery reports (useService) in between.  Every observed target must be one the contract     *)
 (* allows.  Events:                                                                               *)
 (*   reset  cfg = [policy, static = <<[id,w]...>>, disc]      a fresh pool                        *)
-(*   rep    insts = <<[id,w,t]...>>                            useService(instances)               *)
+(*   rep    insts = <<[id,w,t]...>>, same                      useService(instances); same: the    *)
+(*                   servers of the balancer built are those of the balancer it replaces, in the   *)
+(*                   same order (observed; absent = not observed = FALSE)                           *)
 (*   ch     k, r     r = id of the server the transport was called for | "nil" (503, not sent)     *)
 (*                   anything else ("panic", "error:...") is accepted by no contract step          *)
 (*   hold   p, k     request p loaded the pool's balancer (sp.LoadBalancer()) and waits             *)
@@ -41,7 +43,12 @@ TReset ==
                 att |-> TLog[l].cfg.att]
        IN Accepted(c) /\ c.att >= 1 /\ Fresh(c)
 
-TRep == IsEvent("rep") /\ Replace(ToSet(TLog[l].insts)) /\ UNCHANGED att
+(* the static list over again is unchanged whatever was observed of the balancer's slice; a discovered *)
+(* list is unchanged when the same instances came out in the same order                               *)
+ObsSame(e) == LET I == ToSet(e.insts) IN
+              \/ StaticAgain(I)
+              \/ ("same" \in DOMAIN e /\ e.same /\ NewList(I) = lst[gen])
+TRep == IsEvent("rep") /\ ReplaceAs(ToSet(TLog[l].insts), ObsSame(TLog[l])) /\ UNCHANGED att
 
 TCh ==
     /\ IsEvent("ch")
